@@ -16,6 +16,7 @@ import (
 	"verif/internal/fgen"
 	"verif/internal/gen"
 	"verif/internal/harness"
+	"verif/internal/hostile"
 	"verif/internal/spec"
 )
 
@@ -51,8 +52,12 @@ type histCase struct {
 	// Parallel >= 2: additionally the actions are dealt out to this many goroutines that read a sibling copy at the same time (each
 	// repeats its share Rounds times) while an observer keeps comparing the payload with the pristine bytes. Reads without side
 	// effects cannot disturb each other; the binary is built with the race detector, which reports any write to the shared payload.
-	Parallel int `json:"parallel,omitempty"`
-	Rounds   int `json:"rounds,omitempty"`
+	// WantText: texts the payload holds at given addresses (ground truth placed by the case's author): a String read (or a string field)
+	// of 8 characters at such an address must return exactly that text. The pristine-copy oracle cannot see errors that come from state
+	// shared by ALL responses (a process-wide cache), this can.
+	WantText map[int]string `json:"want_text,omitempty"`
+	Parallel int            `json:"parallel,omitempty"`
+	Rounds   int            `json:"rounds,omitempty"`
 }
 
 type live struct {
@@ -247,6 +252,22 @@ func runHist(c histCase) harness.Result {
 			return harness.Fail("step %d (%s %+v): result after the preceding reads is %s, but the same call on a freshly parsed copy of the response gives %s", i, a.Op, a, show(got), show(ref))
 		}
 		results[i] = got
+		if c.WantText != nil {
+			if a.Op == "access" && (a.Access.Kind == "String" || a.Access.Kind == "StringWithByteOrder") {
+				if w, ok := c.WantText[a.Access.Addr]; ok && a.Access.Length == len(w) {
+					if sv, _ := got.val.(string); sv != w || got.err != "" {
+						return harness.Fail("step %d: String(%d, %d) returned %q (err %q), the registers hold %q", i, a.Access.Addr, a.Access.Length, got.val, got.err, w)
+					}
+				}
+			}
+			for _, fv := range got.fields {
+				if w, ok := c.WantText[int(fv.Field.Address)]; ok && fv.Field.Type == modbus.FieldTypeString && int(fv.Field.Length) == len(w) {
+					if sv, _ := fv.Value.(string); sv != w || fv.Error != nil {
+						return harness.Fail("step %d: string field %q at %d extracted as %q (err %v), the registers hold %q", i, fv.Field.Name, fv.Field.Address, fv.Value, fv.Error, w)
+					}
+				}
+			}
+		}
 		if (a.Op == "extract" || a.Op == "extract-coils") && len(a.Fields) > 1 && got.err != "" && a.Lenient && len(got.fields) == len(a.Fields) {
 			// lenient extraction with failures: every field still stands for itself - it fails or succeeds, with the same value, as
 			// when it is extracted alone (an earlier failing field must not influence the reads that follow it)
@@ -522,6 +543,32 @@ func TestSameStringTwice(t *testing.T) {
 					if !chkHist.Eval(t, c) {
 						return
 					}
+				}
+			}
+		}
+	}
+}
+
+// TestCollidingTexts: two different texts that collide under a cheap checksum (FNV, CRC-32, Adler-32, byte sum) sit side by side in one
+// response and are read alternately, in both orders, through the accessor and through field extraction: a read must not be answered
+// from what a checksum-keyed memory of earlier reads believes to be "the same text".
+func TestCollidingTexts(t *testing.T) {
+	for pi, pair := range hostile.CollidingTexts() {
+		if !harness.Mine(pi + 1) {
+			continue
+		}
+		payload := make([]byte, 20)
+		hostile.PlantText(payload, 0, []byte(pair[0]), true)
+		hostile.PlantText(payload, 10, []byte(pair[1]), true)
+		a := action{Op: "access", Access: spec.Access{Kind: "String", Addr: 100, Length: 8}}
+		b := action{Op: "access", Access: spec.Access{Kind: "String", Addr: 105, Length: 8}}
+		e := action{Op: "extract", Fields: []modbus.Field{{Name: "a", ServerAddress: "x", Type: modbus.FieldTypeString, Address: 100, Length: 8}, {Name: "b", ServerAddress: "x", Type: modbus.FieldTypeString, Address: 105, Length: 8}}}
+		e2 := action{Op: "extract", Fields: []modbus.Field{e.Fields[1], e.Fields[0]}}
+		for _, fc := range []uint8{3, 4} {
+			for _, acts := range [][]action{{a, b, a, b}, {b, a, b, a}, {e, e2}, {e2, e}, {a, e2, b}} {
+				c := histCase{Framing: spec.RTU, FC: fc, Start: 100, Payload: payload, Actions: acts, Reversed: true, WantText: map[int]string{100: pair[0], 105: pair[1]}}
+				if !chkHist.Eval(t, c) {
+					return
 				}
 			}
 		}
